@@ -1,18 +1,17 @@
 (* C08 - Conformant SD-JWTs from other issuers are processed as the specification says. *)
 From Coq Require Import List String Ascii Bool Arith.
 Import ListNotations.
-Require Import SDJ.Json SDJ.Wire SDJ.Model2 SDJ.Out SDJ.Restore2 SDJ.ATree SDJ.T2c SDJ.T2h SDJ.T2m SDJ.Verify.
+Require Import SDJ.Json SDJ.Wire SDJ.Model2 SDJ.Out SDJ.Restore2 SDJ.ATree SDJ.T2c SDJ.T2h SDJ.T2m SDJ.T2o SDJ.Verify.
 Local Open Scope string_scope.
 
 (* For EVERY conformant token - described by any well-formed annotated tree t: any shape, recursive
    disclosures, decoys in any _sd list and as array placeholders, salts of any JSON value, any digest
    function H - and every duplicate-free list of presented strings that decode (own disclosures in any
-   order, nested ones before or after their enclosing ones, foreign ones), the pass loop ends in exactly
-   view (own L) t. dec hides JSON whitespace and formatting of the presented string: the digest is over
-   the string as presented, the content is its parse.
-   PARTIAL: covers the pass loop (restore_passes); the duplicate/structure checks that follow it are
-   exercised by the correspondence run. *)
-Theorem C08_interop_passes_partial :
+   order, nested ones before or after their enclosing ones, foreign ones), the complete restore_disclosures
+   (passes + duplicate and structure checks) accepts and returns exactly view (own L) t. dec hides JSON
+   whitespace and formatting of the presented string: the digest is over the string as presented, the content
+   is its parse. *)
+Theorem C08_interop :
   forall (H : string -> string) (enc : list json -> string) (dec : string -> dec_result) (show_nat : nat -> string),
     (forall x y, H x = H y -> x = y) ->
     (forall ps, dec (enc ps) = DJson (JArr ps)) ->
@@ -20,9 +19,9 @@ Theorem C08_interop_passes_partial :
     forall (L : list string) (ds : list disc), NoDup L ->
       (forall s, In s L -> In (H s) (alldigs H enc t) -> In (H s) (hdigs H enc t)) ->
       decode_all H dec L = Ok ds ->
-      exists ps, restore_passes H dec show_nat (blind H enc t) L = Ok (view H enc (ownS H L) t, ps).
-Proof. exact restore_disclosures_ok. Qed.
-Print Assumptions C08_interop_passes_partial.
+      exists ps, restore_disclosures H dec show_nat (blind H enc t) L = Ok (view H enc (ownS H L) t, ps).
+Proof. exact restore_full_ok. Qed.
+Print Assumptions C08_interop.
 
 (* the digest algorithm used for every disclosure is the one named by the signed _sd_alg claim *)
 Theorem C08_algorithm_from_sd_alg :
